@@ -1,17 +1,126 @@
 """C12 - invalid specifications are refused with a clear error wherever the fault sits."""
-CONTRACT_MODULES = []
+CONTRACT_MODULES = ['c12_audit', 'c12_collectors', 'c12_ownrules']
 LEVEL = 'other'
-TRUSTED = ['ENGINE-SPEC: the engine raises when it reads the missing-data code (assumed; sampled)']
+TRUSTED = ['ENGINE-SPEC: the engine raises when it reads the missing-data code (assumed; sampled)',
+           'induction scheme: the abstract contracts of the virtual methods audit / check_draws / check_rv / check_panel_trajectory / '
+           'embed_expression / count_panel_trajectory_expressions / set_id_manager are the induction hypotheses on sub-formulas '
+           '(formulas are finite trees); every implementation is verified against them',
+           'assumed tail of LogLogit.audit (numpy checks after its early return): returns normally and only appends to its two lists '
+           '(syntactic part: static obligation; numeric content: bounded harness)',
+           'assumed callees: IdManager.prepare, Expression.prepare, calculate_function_and_derivatives (compiled engine), Named*FunctionOutput.__init__']
 ASSUMPTIONS = []
-EXPLANATION = ('Fault planting on the real code: every fault kind of the statement at every operand position of every operator kind, each case in its own process, '
-               'with fault-free hosts as the no-false-rejection control.  Deductive obligations on the audit descent are not built yet; this check is a bounded stand-in.')
-LEVEL_TEXT = 'Bounded fault enumeration on the real code (positions x fault kinds x entry points); nothing counted as proved.'
-LEVEL_NOTE = 'Trusted: the expected-outcome table written from the property statement.'
-TECHNIQUE = 'bounded fault planting on the real code (deductive descent contracts not built)'
+EXPLANATION = ('Deductive part: "wherever the fault sits" as structural induction over the formula tree.  Every implementation of the recursive audit '
+               '(base body for every family of node classes, Variable, MonteCarlo, PanelLikelihoodTrajectory, Integrate, BelongsTo, comparison operators, '
+               'LogLogit up to its early return, catalogs) is proved to raise iff a child raises, to return the errors of every child and to add exactly '
+               'one error per own fault (bi-implication, for all inputs).  The placement collectors (check_draws, check_rv, check_panel_trajectory, '
+               'embed_expression, count_panel_trajectory_expressions) are proved to be the union / disjunction / sum over the children, with the blocking '
+               'operators returning nothing and the leaves their own name; the propagation of an id manager refuses iff some child does, and a Variable iff its '
+               'column is absent; IdManager.__init__, dict_of_formulas.check_validity / get_expression refuse iff fault; get_value_and_derivatives returns a '
+               'value only without fault.  Bounded part: fault planting on the real code (every fault kind at every operand position of every operator kind, '
+               'each case in its own process, fault-free hosts as control), which also covers what is out of the deductive subset: Database._audit, nests, '
+               'BIOGEME._audit, IdManager.prepare (duplicate names), dict_of_elementary_expression, the numeric tail of LogLogit.audit and the missing-data code.')
+LEVEL_TEXT = ('Proof obligations for the audit descent, the placement collectors and the small own rules (all inputs); bounded fault enumeration on the real '
+              'code for the entry points and the data / nest / missing-data faults; not a proof of the whole property.')
+LEVEL_NOTE = 'Trusted: the induction scheme (abstract contracts on sub-formulas), the assumed tail of LogLogit.audit, the expected-outcome table of the bounded harness.'
+TECHNIQUE = 'deductive verification of the recursive audit / collectors (structural induction through abstract contracts) + bounded fault planting on the real code'
 DESIGN_REF = 'DESIGN.md section 3 / C12'
+
+RECURSIVE = ['audit', 'check_draws', 'check_rv', 'check_panel_trajectory', 'embed_expression',
+             'count_panel_trajectory_expressions', 'set_id_manager']
+BASE = 'biogeme.expressions.base_expressions.Expression.'
+
+
+def static_dispatch():
+    """Every node class is covered: a class that inherits the base body of a recursive method belongs to a family (or has
+    its own variant) for which that body was verified, and every override has its own contract."""
+    import time
+    from pyvc.contract import REGISTRY
+    from pyvc.driver import Extra
+    from pyvc.repo import get_repo
+    t0 = time.time()
+    repo = get_repo()
+    missing = []
+    n = 0
+    for meth in RECURSIVE:
+        base = repo.function(BASE + meth)
+        variants = {k.split('@')[1]: c for k, c in REGISTRY.contracts.items() if k.startswith(BASE + meth + '@')}
+        for c in repo.subclasses('Expression'):
+            fi = repo.resolve_method(c.name, meth, c.module)
+            n += 1
+            if fi is None:
+                missing.append(f'{c.name}.{meth}: not resolved')
+            elif fi is base:
+                if c.name == 'Expression':
+                    continue        # the abstract root itself is never instantiated with children of its own kind
+                ok = any((v == c.name) or (not con.exact_self and repo.is_subclass(c.name, v)) for v, con in variants.items())
+                if not ok:
+                    missing.append(f'{c.name} inherits Expression.{meth} but no verified variant covers it')
+            else:
+                con = REGISTRY.contracts.get(fi.qualname)
+                if con is None or not con.verify or 'C12' not in con.props:
+                    # set_id_manager of the other leaves only stores indices (no refusal): listed, not required
+                    if meth == 'set_id_manager' and fi.cls in ('Beta', 'bioDraws', 'RandomVariable', 'MultipleExpression'):
+                        continue
+                    missing.append(f'override {fi.qualname} has no verified C12 contract')
+    return Extra('C12:static:every-node-class-covered', 'static', 'failed' if missing else 'discharged', 'ast-static',
+                 round(time.time() - t0, 3),
+                 f'{n} (class, method) pairs resolved over {len(RECURSIVE)} recursive methods; uncovered: {missing[:6]}',
+                 {'uncovered': missing} if missing else None)
+
+
+def static_logit_tail():
+    """Syntactic part of the assumed tail of LogLogit.audit: after the cut, the two lists are never rebound, the only
+    method called on them is append, and every return gives back (list_of_errors, list_of_warnings)."""
+    import ast
+    import time
+    from pyvc.driver import Extra
+    from pyvc.libext.c12_ext import CUTS
+    from pyvc.repo import get_repo
+    t0 = time.time()
+    q = 'biogeme.expressions.logit_expressions.LogLogit.audit'
+    fi = get_repo().function(q)
+    cut = CUTS[q]
+    bad = []
+    if fi is None:
+        bad.append('function not found')
+        body = []
+    else:
+        body = fi.node.body
+    idx = [i for i, s in enumerate(body) if ast.unparse(s).startswith(cut['anchor'])]
+    if len(idx) != 1:
+        bad.append(f"cut anchor `{cut['anchor']}` found {len(idx)} times")
+        tail = []
+    else:
+        tail = body[idx[0]:]
+        # the statement before the cut is the early return guarded by the errors / misplaced draws / random variables
+        prev = body[idx[0] - 1]
+        if not (isinstance(prev, ast.If) and prev.body and isinstance(prev.body[-1], ast.Return)):
+            bad.append('the statement before the cut is not the early return')
+    names = set(cut['grows'])
+    for s in tail:
+        for n in ast.walk(s):
+            if isinstance(n, ast.Name) and n.id in names and isinstance(n.ctx, (ast.Store, ast.Del)):
+                bad.append(f'line {n.lineno}: {n.id} is rebound in the tail')
+            if isinstance(n, ast.AugAssign) and isinstance(n.target, ast.Name) and n.target.id in names:
+                pass        # += extends in place: still only grows
+            if isinstance(n, ast.Attribute) and isinstance(n.value, ast.Name) and n.value.id in names and n.attr not in ('append', 'extend'):
+                bad.append(f'line {n.lineno}: {n.value.id}.{n.attr} in the tail')
+            if isinstance(n, ast.Subscript) and isinstance(n.value, ast.Name) and n.value.id in names and isinstance(n.ctx, (ast.Store, ast.Del)):
+                bad.append(f'line {n.lineno}: item assignment on {n.value.id} in the tail')
+            if isinstance(n, ast.Return):
+                want = ', '.join(cut['returns'])
+                got = ast.unparse(n.value) if n.value is not None else ''
+                if got.strip('()') != want:
+                    bad.append(f'line {n.lineno}: returns `{got}` instead of `{want}`')
+    if tail and not isinstance(tail[-1], ast.Return):
+        bad.append('the body does not end with a return')
+    return Extra('C12:static:LogLogit.audit-tail-only-appends', 'static', 'failed' if bad else 'discharged', 'ast-static',
+                 round(time.time() - t0, 3), f'{len(tail)} tail statements inspected; {bad[:5]}', {'problems': bad} if bad else None)
 
 
 def extra(tier, seed):
     from pyvc.bounded import run_native
-    return [run_native('C12:bounded:fault-planting', 'c12_faults.py', [tier, str(seed)],
-                       bound='see the harness bound string: 56 hosts x wrappers x 10 fault kinds x 2 entry points, missing-data cases, data faults, nest faults', timeout=1500)]
+    out = [static_dispatch(), static_logit_tail()]
+    out.append(run_native('C12:bounded:fault-planting', 'c12_faults.py', [tier, str(seed)],
+                          bound='see the harness bound string: 56 hosts x wrappers x 10 fault kinds x 2 entry points, missing-data cases, data faults, nest faults', timeout=1500))
+    return out
